@@ -599,8 +599,12 @@ class Check(core.PropertyCheck):
                     rid = nid[0]
                     attrs = rng.choice(((), (("Path", "/"),), (("HttpOnly", None), ("Max-Age", "3600")),
                                         (("Expires", "Thu, 01 Jan 2037 00:00:00 GMT"),), (("Domain", "x.example"), ("Secure", None))))
-                    texts["rc"][rid] = ("random", vid, attrs)
-                    texts["vc"][rid] = texts["vc"].get(vid, VAL.get(vid, ("random",))[0])
+                    same = [r for r, (_c, v0, a0) in texts["rc"].items() if v0 == vid and a0 == attrs]
+                    if same:                     # identical (value, attributes): one id, or reading back is ambiguous
+                        rid = same[0]
+                    else:
+                        texts["rc"][rid] = ("random", vid, attrs)
+                        texts["vc"][rid] = texts["vc"].get(vid, VAL.get(vid, ("random",))[0])
                     vid = rid
                 pairs.append([kid, vid])
             ops = [{"op": "assign", "pairs": pairs, "as": rng.choice(("list", "tuple"))}]
